@@ -1,3 +1,136 @@
+import Mhd.Model.AuthInfo
 import Driver.Common
-/- stub: replaced by the builder of this engine -/
-def main : IO Unit := Driver.runEngine () (fun s _ => (s, ["bad-op"]))
+/-
+  Model driver of engine `auth` (C14).  One output line per input line.
+
+    find <b|d> <stateok 0|1> {<kind> <namehex> <valuehex>}*   → found <idx> <off> <len> | none
+    bparse <hex>                          → ok <off> <len> | ok - | fail
+    dparse <hex> <term: x | 0..255>       → ok <12 slots: - | off:len:q> uh=<0|1> algo=<n> qop=<n> | fail | fault <site>
+    algo <hex|none> <0|1>                 → algo=<n>
+    qop <hex|none> <0|1>                  → qop=<n>
+    basic <valuehex>                      → basic none | basic u=<hex> p=<hex|none>
+    info <valuehex>                       → info none | info algo=… ut=… user=… uhh=… uhb=… opaque=… realm=… qop=… cnl=… nc=… | un3 …
+    conn <valuehex>                       → <basic line> ; <info line>     (value as a real request would carry it)
+-/
+open Mhd.Auth Driver
+
+def optHex : Option Bytes → String
+  | none => "none"
+  | some b => hexOfBytes b
+
+def showSite : Site → String
+  | .quotedBackslashEnd => "quoted-backslash-end"
+  | .tokenEnd => "token-end"
+  | .fuel => "fuel"
+
+def showSlot : Option Param → String
+  | none => "-"
+  | some p => s!"{p.off}:{p.raw.length}:{if p.quoted then 1 else 0}"
+
+def showDAuth (d : DAuth) : String :=
+  -- slots 2 (algorithm) and 11 (userhash) are locals of the C parser: not observable, printed as `*`
+  let sl := (List.range 12).map fun k => if k = kAlgorithm ∨ k = kUserhash then "*" else showSlot (d.slots k)
+  s!"ok {" ".intercalate sl} uh={if d.userhash then 1 else 0} algo={d.algo3} qop={d.qop}"
+
+def parseHdrs : List String → Option (List Hdr)
+  | [] => some []
+  | k :: n :: v :: rest =>
+    match k.toNat?, bytesOfHex n, bytesOfHex v, parseHdrs rest with
+    | some kk, some nn, some vv, some t => some (⟨kk, nn, vv⟩ :: t)
+    | _, _, _, _ => none
+  | _ => none
+
+def parseTerm (s : String) : Option (Option UInt8) :=
+  if s == "x" then some none
+  else match s.toNat? with
+    | some n => if n < 256 then some (some (UInt8.ofNat n)) else none
+    | none => none
+
+def parseOptParam (v q : String) : Option (Option Param) :=
+  match q with
+  | "0" | "1" =>
+    if v == "none" then some none
+    else (bytesOfHex v).map fun b => some ⟨0, b, q == "1"⟩
+  | _ => none
+
+def showUname (u : UnameInfo) : String :=
+  s!"ut={u.utype} user={optHex u.username} uhh={optHex u.userhashHex} uhb={optHex u.userhashBin}"
+
+def basicLine (v : Bytes) : String :=
+  match basicApi v with
+  | none => "basic none"
+  | some (u, p) => s!"basic u={hexOfBytes u} p={optHex p}"
+
+def infoLine (v : Bytes) : String :=
+  match digestApi v with
+  | .ok none => "info none"
+  | .ok (some (i, u)) =>
+    let a := match i with
+      | .ok i => s!"info algo={i.algo3} {showUname i.uname} opaque={optHex i.opaq} realm={optHex i.realm} qop={i.qop} cnl={i.cnonceLen} nc={i.nc}"
+      | .null => "info null"
+      | .overread => "info fault pct-overread"
+    let b := match u with
+      | .ok (u, algo) => s!"un3 {showUname u} algo={algo}"
+      | .null => "un3 none"
+      | .overread => "un3 fault pct-overread"
+    a ++ " | " ++ b
+  | .reject => "info none"
+  | .fault s => s!"info fault {showSite s}"
+
+/-- values a real request can carry unchanged: no NUL/CR/LF, no leading or trailing SP/HT -/
+def connOk (v : Bytes) : Bool :=
+  v.all (fun c => c ≠ 0 && c ≠ 13 && c ≠ 10) &&
+    (match v.head? with | some c => ! isWs c | none => false) &&
+    (match v.getLast? with | some c => ! isWs c | none => false)
+
+def stepLine (s : Unit) (ws : List String) : Unit × List String :=
+  match ws with
+  | "find" :: t :: st :: rest =>
+    let tok? : Option Bytes := if t == "b" then some Mhd.Gen.Auth.basicBase
+                               else if t == "d" then some Mhd.Gen.Auth.digestBase else none
+    match tok?, st, parseHdrs rest with
+    | some tok, "0", some hs | some tok, "1", some hs =>
+      match findAuthHeader (st == "1") tok hs with
+      | some (k, off, rest) => (s, [s!"found {k} {off} {rest.length}"])
+      | none => (s, ["none"])
+    | _, _, _ => (s, ["bad-op"])
+  | ["bparse", h] =>
+    match bytesOfHex h with
+    | some b =>
+      match parseBasic b with
+      | .ok none => (s, ["ok -"])
+      | .ok (some (off, tok)) => (s, [s!"ok {off} {tok.length}"])
+      | .reject => (s, ["fail"])
+      | .fault e => (s, [s!"fault {showSite e}"])
+    | none => (s, ["bad-op"])
+  | ["dparse", h, t] =>
+    match bytesOfHex h, parseTerm t with
+    | some b, some term =>
+      match parseDigest b term with
+      | .ok d => (s, [showDAuth d])
+      | .reject => (s, ["fail"])
+      | .fault e => (s, [s!"fault {showSite e}"])
+    | _, _ => (s, ["bad-op"])
+  | ["algo", v, q] =>
+    match parseOptParam v q with
+    | some p => (s, [s!"algo={algoOf p}"])
+    | none => (s, ["bad-op"])
+  | ["qop", v, q] =>
+    match parseOptParam v q with
+    | some p => (s, [s!"qop={qopOf p}"])
+    | none => (s, ["bad-op"])
+  | ["basic", h] =>
+    match bytesOfHex h with
+    | some b => (s, [basicLine b])
+    | none => (s, ["bad-op"])
+  | ["info", h] =>
+    match bytesOfHex h with
+    | some b => (s, [infoLine b])
+    | none => (s, ["bad-op"])
+  | ["conn", h] =>
+    match bytesOfHex h with
+    | some b => if connOk b then (s, [basicLine b ++ " ; " ++ infoLine b]) else (s, ["bad-op"])
+    | none => (s, ["bad-op"])
+  | _ => (s, ["bad-op"])
+
+def main : IO Unit := runEngine () stepLine
